@@ -75,6 +75,32 @@ def run_case(case, drv):
         res.fail(f"{form}:zero-set", f"x={x}: QUBO value {fs(Fraction(int(vals[i0]), d))}, satisfies the constraints: {bool(B.feasible[i0])}")
     if (int(vals.min()) == 0) != bool(B.feasible.any()):
         res.fail(f"{form}:min-zero", f"minimum {fs(Fraction(int(vals.min()), d))} but feasible set non-empty = {bool(B.feasible.any())}")
+    # the package's own feasibility tester (vrpqubo/test_feasibility.py) on the constraint data: model correspondence and oracle
+    try:
+        from vrpqubo.test_feasibility import test_feasibility
+        A_eq, b_eq, Q_eq, r_eq = o.get_constraint_data()
+        idx = sorted(set([int(i) for i in np.nonzero(B.feasible)[0][:2]] + [int(i) for i in np.nonzero(~B.feasible)[0][:3]]
+                         + [(7 * n + 3) % len(B.X), len(B.X) - 1]))
+        xs = [[int(t) for t in B.X[i]] for i in idx]
+        rep = drv.ask(f"{form}.tf {FU.inst_tokens(o, form)} {len(xs)} " + " ".join(f"{n} " + " ".join(map(str, x)) for x in xs))
+        head, groups = core.split_reply(rep)
+        if head != "ok":
+            res.disagree("test_feasibility status", "ok", rep[:80])
+        for q, (i, x) in enumerate(zip(idx, xs)):
+            vio_l, vio_q, nnz = test_feasibility(np.array(x), A_eq, b_eq, Q_eq, r_eq)
+            got = ([bool(t) for t in np.asarray(vio_l).ravel()], F(vio_q), int(nnz))
+            if head == "ok":
+                mg = groups[3 * q: 3 * q + 3]
+                want = ([t == "1" for t in mg[0][1:]], Fraction(mg[1][0]), int(mg[2][0]))
+                if got != want:
+                    res.disagree(f"test_feasibility at x={x}", got, want)
+            clean = (not any(got[0])) and got[1] == 0
+            if clean != bool(B.feasible[i]):
+                res.fail(f"{form}:tester-vs-constraints", f"test_feasibility reports {'no' if clean else 'a'} violation at x={x} but the vector "
+                         f"{'satisfies' if B.feasible[i] else 'violates'} the constraints")
+        res.features.append("test_feasibility:compared")
+    except Exception as e:  # noqa
+        res.fail(f"{form}:tester-raises", f"test_feasibility raised {e!r}")
     # zero-energy assignments must be valid solutions of the routing problem itself (independent statement of the formulation's
     # constraints: depot-route decomposition for arc-based instances with positive customer-to-customer times)
     if form == "arc" and n <= 14 and not res.failures:
